@@ -3540,3 +3540,107 @@ func ruleC10LocalSymbolIsFunction(c *ctx.Ctx, r *core.Reporter) {
 	})
 	r.Check(ok, "functions-only", c.Pos(arm.Pos()), "the name comparison is conjoined with `<decl>.Recv == nil` (a method `func (T) f()` declared before the body-less `func f()` is otherwise taken for the directive's target and the build fails)")
 }
+
+// ruleC15UnhashablePanics: using a value of an unhashable dynamic type (slice, map, func, or a struct/array
+// containing one) as the key of an interface-keyed map panics with the run-time error "hash of unhashable
+// type T". $ifaceKeyFor is where every such key passes; it has to test the type's comparability itself —
+// calling the (missing) keyFor of a slice type is a JavaScript TypeError, not a runtime.Error.
+func ruleC15UnhashablePanics(c *ctx.Ctx, r *core.Reporter) {
+	r.Begin("C15.unhashable", "F-MUST", "$ifaceKeyFor throws a Go run-time error for a dynamic type that is not comparable, before it calls the type's keyFor", 1)
+	if !needPrelude(c, r) {
+		return
+	}
+	fn := c.PreludeFunc("$ifaceKeyFor")
+	if fn == nil {
+		r.Undecided("$ifaceKeyFor", "compiler/prelude/types.js", "not found")
+		return
+	}
+	guard, call := -1, -1
+	fn.Walk(func(x *ctx.JSNode) bool {
+		if x.Is("IfStatement") && strings.Contains(squash(x.N("test").Src()), ".comparable") && strings.Contains(x.N("consequent").Src(), "$throwRuntimeError") && guard < 0 {
+			guard = x.Start
+		}
+		if x.Is("CallExpression") && x.N("callee").MemberName() == "keyFor" && call < 0 {
+			call = x.Start
+		}
+		return true
+	})
+	r.Check(guard >= 0 && call >= 0 && guard < call, "guard-before-keyFor", fn.Pos(), "`if (!c.comparable) { $throwRuntimeError(\"hash of unhashable type \" + …) }` precedes `c.keyFor(…)` (without it m[[]int{1}] = 1 on a map[any]int fails with `JavaScript error: c.keyFor is not a function`, which is no runtime.Error)")
+}
+
+// ruleC17SessionArchives: an Archive is the translation of a package under ONE preparation of the whole
+// program: the generic instances it contains are those the prepared set of sources asked for, and their
+// ids come from that preparation. A Session prepares afresh (new types.Context, all sources known so far)
+// for every command it builds; an archive kept from an earlier preparation and keyed by import path alone
+// is then paired with a program that needs other instances (`gopherjs install ./a ./b`: b.js calls
+// lib.Id[2], which the archive compiled for a does not have).
+func ruleC17SessionArchives(c *ctx.Ctx, r *core.Reporter) {
+	r.Begin("C17.session-archives", "F-PAIR", "a Session method that prepares the sources afresh (types.NewContext) does not reuse archives compiled under an earlier preparation", 1)
+	p := c.Pkg("build")
+	if p == nil {
+		r.Undecided("pkg", "build", "not loaded")
+		return
+	}
+	n := 0
+	for _, fd := range c.AllFuncDecls("build") {
+		if fd.Body == nil || fd.Recv == nil || c.IsTestFile(fd.Pos()) {
+			continue
+		}
+		fresh := token.NoPos
+		ast.Inspect(fd.Body, func(x ast.Node) bool {
+			if ce, ok := x.(*ast.CallExpr); ok && exprStr(ce.Fun) == "types.NewContext" && fresh == token.NoPos {
+				fresh = ce.Pos()
+			}
+			return true
+		})
+		if fresh == token.NoPos {
+			continue
+		}
+		// callees (methods of the receiver) that answer from the archive cache
+		reuse := ""
+		ast.Inspect(fd.Body, func(x ast.Node) bool {
+			ce, ok := x.(*ast.CallExpr)
+			if !ok {
+				return true
+			}
+			se, ok := ce.Fun.(*ast.SelectorExpr)
+			if !ok {
+				return true
+			}
+			callee := c.FuncDecl("build", "Session."+se.Sel.Name)
+			if callee == nil || callee.Body == nil {
+				return true
+			}
+			for _, m := range findGoPattern(callee.Body, `if µa, µok := µs.UpToDateArchives[µk]; µok { return µa, nil }`) {
+				_ = m
+				reuse = se.Sel.Name
+			}
+			return true
+		})
+		if reuse == "" {
+			continue
+		}
+		n++
+		reset := hasGoPattern(fd.Body, `µs.UpToDateArchives = map[string]*compiler.Archive{}`) || hasGoPattern(fd.Body, `µs.UpToDateArchives = make(map[string]*compiler.Archive)`)
+		r.Check(reset, "reuse:"+ctx.FuncName(fd), c.Pos(fd.Pos()), fmt.Sprintf("%s makes a fresh types.Context and prepares all sources, then lets %s answer from Session.UpToDateArchives, which still holds the archives of the previous preparation (keyed by import path only)", ctx.FuncName(fd), reuse))
+	}
+	r.Check(n >= 1, "sites", "build/build.go", fmt.Sprintf("%d preparing method(s) that consult the archive cache", n))
+	// the preparation covers the program being built, not everything the session has loaded: instance ids are
+	// assigned over the prepared set, so the output of `install ./a ./b` for b would differ from `install ./b`
+	if fd := c.FuncDecl("build", "Session.prepareAndCompilePackages"); fd != nil {
+		root := firstParamName(fd)
+		ok := false
+		for _, m := range findGoPattern(fd.Body, `compiler.PrepareAllSources(µa, µµrest)`) {
+			for _, d := range localAssignments(fd, m.Env["µa"]) {
+				if ce, isCall := d.rhs.(*ast.CallExpr); isCall {
+					for _, a := range ce.Args {
+						if exprStr(a) == root {
+							ok = true
+						}
+					}
+				}
+			}
+		}
+		r.Check(ok, "prepares-own-packages", c.Pos(fd.Pos()), "the sources handed to compiler.PrepareAllSources are computed from the root package of the build (its dependency closure), not taken wholesale from the session (instance numbering would depend on what was built before)")
+	}
+}
